@@ -24,6 +24,12 @@ fn segments() -> Vec<String> {
         "\u{2024}\u{2024}".into(), // one dot leader x2
         "\u{ff0e}\u{ff0e}".into(), // fullwidth full stop x2
         "x".repeat(300),
+        // directories that exist inside the base (a traversal only resolves through segments that
+        // exist), with names of 1-, 2-, 3- and 4-byte characters
+        "ad".into(),
+        "\u{e9}d".into(),
+        "\u{65e5}\u{672c}d".into(),
+        "\u{1f600}d".into(),
     ]
 }
 
@@ -57,7 +63,7 @@ fn build_tree() -> Tree {
         write_file(&base.join(s), &file_body("IN", s));
         inside += 1;
     }
-    for d in ["a", "a.", "%2e%2e"] {
+    for d in ["a", "a.", "%2e%2e", "\u{e9}", "\u{65e5}\u{672c}", "\u{1f600}"] {
         // directories: use distinct names so both file and dir routes exist
         let dn = format!("{}d", d);
         for s in ok_segs {
